@@ -541,6 +541,9 @@ func (c *HostClient) doNonNilReqResp(req *protocol.Request, resp *protocol.Respo
 	customSkipBody := resp.SkipBody
 	resp.Reset()
 	resp.SkipBody = customSkipBody
+	// The mark set below for a HEAD / CONNECT exchange is the client's, not the application's: on every way
+	// out (also the error paths that lead to a retry) the response object gets back what the application set.
+	defer func() { resp.SkipBody = customSkipBody }()
 
 	if c.DisablePathNormalizing {
 		req.URI().DisablePathNormalizing = true
@@ -728,9 +731,6 @@ func (c *HostClient) doNonNilReqResp(req *protocol.Request, resp *protocol.Respo
 		// so the connection cannot serve another exchange.
 		shouldCloseConn = true
 	}
-	// The mark set above for a HEAD / CONNECT exchange is the client's, not the application's: a response
-	// object that is passed to the next call must not carry it over.
-	resp.SkipBody = customSkipBody
 
 	if resp.Header.StatusCode() == consts.StatusSwitchingProtocols &&
 		bytes.EqualFold(resp.Header.Peek(consts.HeaderConnection), bytestr.StrUpgrade) {
